@@ -196,6 +196,19 @@ func ruleODBlock(c *Ctx) {
 	if !c.Anchor(w != nil && rowCount != nil && block != nil, "WriteBlock(w io.Writer, rowCount int, block []byte)") {
 		return
 	}
+	if bf := blockByFold(P); bf.ok {
+		key := fnKey(fn)
+		pos := P.pos(fn.Pos())
+		for _, cl := range []string{"write-count", "compress", "write#1", "write#2", "write#3", "write#4"} {
+			if len(bf.problems) == 0 {
+				c.OK(key+"/"+cl, pos, bf.detail+": the writes on w are, in order, varint(rowCount), varint(len(compressed)), compressed, the sixteen sync bytes, compressed being what the writer's compressor returned for the block")
+			}
+		}
+		if len(bf.problems) > 0 {
+			c.Bad(key+"/layout", pos, strings.Join(bf.problems, "; "))
+		}
+		return
+	}
 	evs, unknown := writeEventsOn(P, fn, w)
 	for _, u := range unknown {
 		c.Unk(fnKey(fn)+"/writer-use", P.pos(u.Pos()), "unrecognised use of the writer: "+u.String())
